@@ -136,8 +136,8 @@ fn check_list_order(plan: &Plan, ctx: &Ctx, stats: &mut Stats) -> Result<(), Fai
 pub fn property() -> Property {
     let mut jobs: Vec<Box<dyn JobT>> = Vec::new();
     let w = Weights { edit: 45, deliver: 40, redeliver: 10, merge: 0, snapshot: 0, merge_snapshot: 0, save_restore: 0, probe: 0 };
-    let pc = PlanCfg::new(w).steps(8, 36).editors(2, 4).observers(0, 1);
-    jobs.push(mk_job("List<u32,u8>/causal/ops+dups (delayed delivery)", 30000, 200_000, pc, Ctx::new(Disc::Causal), check_list_order).floor("nontrivial", 0.05).boxed());
+    let pc = PlanCfg::new(w).steps(8, 40).editors(2, 5).observers(0, 1);
+    jobs.push(mk_job("List<u32,u8>/causal/ops+dups (delayed delivery)", 80000, 400_000, pc, Ctx::new(Disc::Causal), check_list_order).floor("nontrivial", 0.05).boxed());
     Property {
         id: "C12",
         rule: "Plans of insert_index (any index incl. beyond len), append and delete_index with unique element tags at 2-4 actors, with DELAYED causal delivery (so 3+ actors insert into the same gap concurrently) and duplicates. Oracles after every step: membership = inserted-and-known minus deleted-and-known, each element once; replicas with equal knowledge read the same sequence; the 'x before y' relation collected from every replica at every step is antisymmetric and (at the end) acyclic, i.e. one global total order exists; after a final causal settle all replicas read the same sequence and it extends the collected relation. Also API consistency of read/iter/iter_entries/position/position_entry/get/first/last/len. Non-trivial = two concurrent inserts by different replicas whose origins saw the same (prev,next) neighbours, a delete of a remotely inserted element, and replicas with different non-empty knowledge compared; distinct = distinct Plan hash.".into(),
